@@ -194,7 +194,9 @@ impl QueryNode {
             QueryNode::NegatedNode { node } => {
                 if matches!(
                     **node,
-                    QueryNode::NegatedNode { .. } | QueryNode::Boolean { .. }
+                    QueryNode::NegatedNode { .. }
+                        | QueryNode::Boolean { .. }
+                        | QueryNode::MatchNoDocs
                 ) {
                     format!("NOT ({})", node.to_lucene())
                 } else {
@@ -217,7 +219,7 @@ impl QueryNode {
                     }
                     // A negated child renders itself (`NOT x`, `NOT (..)` around a nested
                     // negation or boolean).
-                    let qstr = if let QueryNode::Boolean { .. } = n {
+                    let qstr = if let QueryNode::Boolean { .. } | QueryNode::MatchNoDocs = n {
                         format!("({})", n.to_lucene())
                     } else {
                         n.to_lucene()
@@ -239,7 +241,7 @@ impl QueryNode {
                     if !output.is_empty() {
                         output.push_str(" OR ");
                     }
-                    let qstr = if let QueryNode::Boolean { .. } = n {
+                    let qstr = if let QueryNode::Boolean { .. } | QueryNode::MatchNoDocs = n {
                         format!("({})", n.to_lucene())
                     } else {
                         n.to_lucene()
